@@ -120,25 +120,34 @@ impl Node {
         assert_eq!(NODE_USED, self.in_use.swap(NODE_COOLDOWN, Release));
     }
 
-    /// Perform a cooldown if the node is ready.
+    /// Try to take over a node that is in cooldown.
     ///
     /// See the ABA protection at the [helping].
-    fn check_cooldown(&self) {
-        // Check if the node is in cooldown, for two reasons:
-        // * Skip most of nodes fast, without dealing with them.
-        // * More importantly, sync the value of active_writers to be at least the value when the
-        //   cooldown started. That way we know the 0 we observe happened some time after
-        //   start_cooldown.
-        if self.in_use.load(Acquire) == NODE_COOLDOWN {
-            // The rest can be nicely relaxed ‒ no memory is being synchronized by these
-            // operations. We just see an up to date 0 and allow someone (possibly us) to claim the
-            // node later on.
-            if self.active_writers.load(Relaxed) == 0 {
-                let _ = self
-                    .in_use
-                    .compare_exchange(NODE_COOLDOWN, NODE_UNUSED, Relaxed, Relaxed);
+    ///
+    /// The node is claimed first and only then it is checked no writer is inside it any more.
+    /// Checking first and letting the node be claimed afterwards is racy: the verdict may be
+    /// arbitrarily old by the time it is acted upon ‒ the node may have been claimed, used and
+    /// sent to another cooldown in between, with a writer still inside that holds a generation
+    /// of that owner.
+    fn check_cooldown(&self) -> bool {
+        // The load is there to skip most of the nodes fast, without writing into them.
+        if self.in_use.load(Acquire) == NODE_COOLDOWN
+            && self
+                .in_use
+                // This synchronizes with start_cooldown, so the value of active_writers we see
+                // below is at least as new as the one from when the cooldown started.
+                .compare_exchange(NODE_COOLDOWN, NODE_USED, SeqCst, Relaxed)
+                .is_ok()
+        {
+            // Nobody else can claim the node now. If there's no writer inside, any writer that
+            // comes later sees only what we do with the node.
+            if self.active_writers.load(SeqCst) == 0 {
+                return true;
             }
+            // Somebody might still hold a generation of the previous owner. Not yet.
+            self.in_use.store(NODE_COOLDOWN, SeqCst);
         }
+        false
     }
 
     /// Mark this node that a writer is currently playing with it.
@@ -154,13 +163,13 @@ impl Node {
     fn get() -> &'static Self {
         // Try to find an unused one in the chain and reuse it.
         Self::traverse(|node| {
-            node.check_cooldown();
-            if node
-                .in_use
-                // We claim a unique control over the generation and the right to write to slots if
-                // they are NO_DEPT
-                .compare_exchange(NODE_UNUSED, NODE_USED, SeqCst, Relaxed)
-                .is_ok()
+            if node.check_cooldown()
+                || node
+                    .in_use
+                    // We claim a unique control over the generation and the right to write to slots
+                    // if they are NO_DEPT
+                    .compare_exchange(NODE_UNUSED, NODE_USED, SeqCst, Relaxed)
+                    .is_ok()
             {
                 Some(node)
             } else {
